@@ -121,6 +121,46 @@ def _standin(rep, tier, seed, only_search=False):
                 if only_search:
                     return
                 break
+    # the laws on the families where candidate costs tie up to rounding, on split pools and on long chains
+    cnt = 0
+    for A, B, src in dc.enumerate_pairs(tier, random.Random(seed * 3 + 1)):
+        if src not in ("decimal-ties", "split-pool", "chain"):
+            continue
+        cnt += 1
+        db, dw = _d("inf", A, B), _d("2", A, B)
+        tol = 64 * 2.3e-16 * max([abs(x) for p in A + B for x in p] + [1.0]) * (len(A) + len(B) + 2) * 8
+        m = 0.45
+        checks = [("symmetry", abs(_d("inf", B, A) - db) <= tol and abs(_d("2", B, A) - dw) <= tol),
+                  ("bottleneck-le-wasserstein", db <= dw + tol),
+                  ("diagonal-point", abs(_d("inf", A + [[m, m]], B) - db) <= tol and abs(_d("2", A, B + [[m, m]]) - dw) <= tol),
+                  ("scale", abs(_d("inf", [[2 * x for x in p] for p in A], [[2 * x for x in p] for p in B]) - 2 * db) <= 4 * tol)]
+        if len(A) == len(B) == 1:
+            mid = [[(A[0][0] + B[0][0]) / 2, (A[0][1] + B[0][1]) / 2]]
+            checks.append(("triangle", db <= _d("inf", A, mid) + _d("inf", mid, B) + tol))
+        for name, ok in checks:
+            evals += 1
+            distinct.add(("family-laws", src, name))
+            if not ok:
+                rep.violation("law '%s' fails on the %s family: bottleneck %r, wasserstein %r (%s, %s)" % (name, src, db, dw, A if len(A) < 8 else "...", B if len(B) < 8 else "..."),
+                              "bottleneck:law:%s" % name, {"input": {"dgm1": A, "dgm2": B}, "observed": [db, dw], "law": name, "fn": "bottleneck/wasserstein"})
+                if only_search:
+                    return
+    # persistences spanning 13 to 16 orders of magnitude: a huge bar shared by both diagrams next to ordinary ones
+    for _ in range(10 if tier == "quick" else 150):
+        big = [0.0, rng.choice([1e13, 1e15, 1e16])]
+        small = dc.rand_dgm(rng, rng.randint(1, 3))
+        small = [p for p in small if p[1] > p[0]] or [[2.0, 3.0]]
+        A, B = [big] + small, [big]
+        for kind, fn in (("inf", "bottleneck"), ("2", "wasserstein")):
+            got = _d(kind, A, B)
+            want = dc.oracle(kind, small, [])           # the shared bar pairs with itself at cost 0
+            evals += 1
+            distinct.add((fn, "extreme-ratio"))
+            if abs(got - want) > 1e-9 * max(1.0, want) + 64 * 2.3e-16 * big[1]:
+                rep.violation("%s of %s vs %s = %r; the shared bar cancels and the rest goes to the diagonal at cost %r" % (fn, A, B, got, want), "%s:law:empty" % fn,
+                              {"input": {"dgm1": A, "dgm2": B}, "observed": got, "expected": want, "law": "shared-bar-cancels", "fn": fn})
+                if only_search:
+                    return
     # all scales and shifts: dyadic diagrams moved far along the diagonal (2^20 .. 2^40) or rescaled by powers of two (2^-40 .. 2^30).
     # Every coordinate, difference and half-difference stays exactly representable, so the bottleneck distance must transform
     # exactly and the Wasserstein distance up to the rounding of its square roots and sums - no tolerance may depend on the magnitude.
